@@ -26,10 +26,11 @@ T = {
          "Trusted: TLC; references are the decoder's own previous output (validated when it was produced).",
          "TLA+ spec (Recon.tla, Picture.tla) + TLC trace validation of predicted pictures over adopted references"),
  "C04": ("Two-layer TLA+ model (requirement: last/reference are pictures; implementation-shaped: TR-keyed store): TLC checks "
-         "RefIsLastNonDisposable for all histories over {I,P,D,Reject,Cleanup} and all TR assignments up to a bound, exports "
+         "RefIsLastNonDisposable for all histories over {I,P,D,Reject,Cleanup} and all TR assignments up to a bound (and Apalache "
+         "discharges an inductive invariant of the same model for histories of any length and TRs 0..1023), exports "
          "every model history, and validates the real decoder's planes, header and hook state after every call of those "
          "histories (and of long random ones with arbitrary 8-bit TRs) against the requirement layer.", "5 C04",
-         "Trusted: TLC; bounded history length (model 6/9, replayed 3/4 exhaustively, 12..40 sampled).",
+         "Trusted: TLC, Apalache (inductive invariant of the abstract model only); replayed histories are bounded (3/4 exhaustively, 12..40 sampled).",
          "TLA+ refinement model checked with TLC; TLC-exported behaviours replayed; pixel-level trace validation"),
  "C05": ("Failing inputs at every depth (header, macroblock header, vectors, block data, missing reference, missing data) "
          "are injected into histories; TLC validates that after every error the planes, header, reference state and reader "
